@@ -588,25 +588,44 @@ func specVarIndex(ex ast.Expr) (int, bool) {
 // resultAliases: top-level conjuncts `sameSlice(<result>[.field…], E)` of an ensures clause: the named component of
 // the result is the slice E (same array, offset and length) rather than an arbitrary slice.
 type resultAlias struct {
-	res  int
-	path []int
-	rhs  ast.Expr
+	res   int      // result index, or -1 if the target is `*param`
+	param string   // parameter name for a `*param` target
+	path  []int
+	rhs   ast.Expr
+	guard ast.Expr // nil: unconditional; else the alias holds when guard does (`guard ==> sameSlice(...)`)
 }
 
+// resultAliases: conjuncts `sameSlice(T, E)` of an ensures clause — at top level or directly under one top-level
+// implication — where T is a result (or a field path of one) or `*p` for a pointer parameter p: the target *is*
+// the slice E (same array, offset and length) rather than an arbitrary slice that happens to be equal.
 func (cl *Clause) resultAliases() []resultAlias {
 	if len(cl.Binders) > 0 {
 		return nil
 	}
 	var out []resultAlias
-	var walk func(ex ast.Expr)
-	walk = func(ex ast.Expr) {
+	var walk func(ex ast.Expr, guard ast.Expr)
+	walk = func(ex ast.Expr, guard ast.Expr) {
 		switch x := ex.(type) {
 		case *ast.ParenExpr:
-			walk(x.X)
+			walk(x.X, guard)
 		case *ast.BinaryExpr:
 			if x.Op == token.LAND {
-				walk(x.X)
-				walk(x.Y)
+				walk(x.X, guard)
+				walk(x.Y, guard)
+			}
+			// `A ==> B` was rewritten to `!(A) || (B)`
+			if x.Op == token.LOR && guard == nil {
+				l := ast.Expr(x.X)
+				for {
+					p, ok := l.(*ast.ParenExpr)
+					if !ok {
+						break
+					}
+					l = p.X
+				}
+				if n, ok := l.(*ast.UnaryExpr); ok && n.Op == token.NOT {
+					walk(x.Y, n.X)
+				}
 			}
 		case *ast.CallExpr:
 			id, ok := x.Fun.(*ast.Ident)
@@ -632,11 +651,17 @@ func (cl *Clause) resultAliases() []resultAlias {
 				a = sel.X
 			}
 			if i, ok := specVarIndex(a); ok && i < cl.nRes {
-				out = append(out, resultAlias{i, path, x.Args[1]})
+				out = append(out, resultAlias{res: i, path: path, rhs: x.Args[1], guard: guard})
+				return
+			}
+			if st, ok := a.(*ast.StarExpr); ok && len(path) == 0 {
+				if pid, ok := st.X.(*ast.Ident); ok {
+					out = append(out, resultAlias{res: -1, param: pid.Name, rhs: x.Args[1], guard: guard})
+				}
 			}
 		}
 	}
-	walk(cl.Expr)
+	walk(cl.Expr, nil)
 	return out
 }
 
